@@ -166,7 +166,7 @@ inductive Op where
   | joinFusedLhs (a : Accum) (p0 p1 : Pers)
   | joinFusedRhs (a : Accum) (p0 p1 : Pers)
   | joinMultisetHalf (pbuild pprobe : Pers)  -- inputs: 0 = build, 1 = probe
-  /- Fused pull chains whose consumer stops pulling early (finding F22): the lazily evaluated
+  /- Fused pull chains whose consumer stops pulling early (finding F221): the lazily evaluated
      stateful operator only sees the items that were actually pulled through it. -/
   | fusedEnumChainFirstN (n : Nat)         -- `enumerate::<'static>() -> [0]chain_first_n(n)`, other input on [1]
   | fusedUniqueCrossSingleton              -- `unique::<'static>() -> [input]cross_singleton::<'tick>()`
